@@ -104,8 +104,19 @@ def structured_schedule(p, rnd):
         "cycle": [(a, b), (b, c), (c, a), (c, d)],
         "two_cycles": [(a, b), (b, a), (c, d), (d, c), (b, c)],
         "self": [(a, a), (b, a), (a, b), (b, c)],
+        # four classes first, then pairs that glue the early classes into the last one (either direction): the creation
+        # order of classes / sets is what sampling estimates and representative choices depend on
+        "glue": [(a, b), (c, d), (e, f), (g, h), (g, a), (g, c), (g, e)],
+        "glue_rev": [(a, b), (c, d), (e, f), (g, h), (a, g), (c, h), (e, g)],
     }
-    edges = list(rnd.choice(sorted(shapes.values())))
+    name = rnd.choice(sorted(shapes))
+    edges = list(shapes[name])
+    if name.startswith("glue"):
+        rows = [[0] + ([0] if keyed else []) + [x, y] for x, y in edges[:4]] + \
+               [[rnd.choice([1, 1, 2])] + ([0] if keyed else []) + [x, y] for x, y in edges[4:]]
+        inputs = {r["name"]: [] for r in p["rels"] if r["input"]}
+        inputs["sched"] = rows
+        return inputs
     for _ in range(rnd.choice([0, 1, 2, 3])):
         edges.append((rnd.choice(nodes), rnd.choice(nodes)))             # unrelated / extra edges
     rnd.shuffle(edges)
